@@ -46,6 +46,24 @@ type reporter struct {
 	mu    sync.Mutex
 	seen  map[string]int
 	toler map[string]int
+	texts map[string]int // text position x text class of the loaded schemas ("own/" prefix: the probe's own schema)
+}
+
+func (r *reporter) noteTexts(prefix string, sch *ast.Schema) {
+	loc := map[string]int{}
+	c16lib.TextPositions(sch, func(pos, where, v string) {
+		if v == "" {
+			return
+		}
+		for _, cl := range c16lib.TextClasses(v) {
+			loc[prefix+pos+":"+cl]++
+		}
+	})
+	r.mu.Lock()
+	for k, v := range loc {
+		r.texts[k] += v
+	}
+	r.mu.Unlock()
 }
 
 // report forwards at most two mismatches per key to the evidence (the first ones, with replay objects).
@@ -189,8 +207,21 @@ func main() {
 	c := vlib.NewCheck(prop, "exploration")
 	thorough := vlib.Tier() == "thorough"
 	seed := vlib.Seed()
-	rep := &reporter{c: c, seen: map[string]int{}, toler: map[string]int{}}
+	rep := &reporter{c: c, seen: map[string]int{}, toler: map[string]int{}, texts: map[string]int{}}
 	_ = os.RemoveAll(vlib.Work(prop))
+
+	// the text-class file of the probe is produced by c16lib.TextProbeSDL (every blank, tab and CR spelled out)
+	textProbe := filepath.Join(vlib.Harness(), "probes", "c16", "d.graphqls")
+	if os.Getenv("VERIF_C16_WRITE_TEXT_PROBE") != "" {
+		if err := os.WriteFile(textProbe, []byte(c16lib.TextProbeSDL()), 0o644); err != nil {
+			vlib.Infra("write %s: %v", textProbe, err)
+		}
+		fmt.Fprintln(os.Stderr, "c16: wrote", textProbe)
+		os.Exit(0)
+	}
+	if b, err := os.ReadFile(textProbe); err != nil || string(b) != c16lib.TextProbeSDL() {
+		vlib.Infra("probes/c16/d.graphqls is not what c16lib.TextProbeSDL produces (an editor normalised blanks / line ends?): regenerate it with VERIF_C16_WRITE_TEXT_PROBE=1 ./check C16 (%v)", err)
+	}
 
 	// ---- replay of one recorded scenario ----
 	var replay *scenario
@@ -217,13 +248,47 @@ func main() {
 	if thorough {
 		variants = append(variants, vlib.Variant{Name: "v2", WorkerLimit: 1, Opts: map[string]bool{"omit_slice_element_pointers": true, "resolvers_always_return_pointers": true}})
 	}
+	// the layouts above keep the schema files outside the executor's directory: the generator inlines them
+	// (templates.rawQuote); e0 / e1 keep them inside it: the generator embeds them (//go:embed)
+	embedded := []vlib.Variant{{Name: "e0"}}
+	if thorough {
+		embedded = append(embedded, vlib.Variant{Name: "e1", FollowSchema: true, WorkerLimit: 2})
+	}
 	type built struct {
 		bins map[string]string
 		err  error
 	}
 	bch := make(chan built, 1)
 	go func() {
+		var wg sync.WaitGroup
+		var mu sync.Mutex
+		ebins := map[string]string{}
+		var eerr error
+		for _, v := range embedded {
+			wg.Add(1)
+			go func(v vlib.Variant) {
+				defer wg.Done()
+				bin, err := vlib.C16BuildProbeEmbedded("c16", v)
+				mu.Lock()
+				defer mu.Unlock()
+				if err != nil && eerr == nil {
+					eerr = err
+				}
+				ebins[v.ID()] = bin
+			}(v)
+		}
 		bins, err := vlib.BuildProbes("c16", variants)
+		wg.Wait()
+		if err == nil {
+			err = eerr
+		}
+		if bins == nil {
+			bins = map[string]string{}
+		}
+		for k, v := range ebins {
+			bins[k] = v
+		}
+		variants = append(variants, embedded...)
 		bch <- built{bins, err}
 	}()
 
@@ -232,6 +297,7 @@ func main() {
 	var gates []*c16lib.GateCase
 	var ownAST *ast.Schema
 	var ownConc *c16lib.Conc
+	ownAltText = map[string]string{}
 	{
 		var srcs []*ast.Source
 		files, _ := filepath.Glob(filepath.Join(vlib.Harness(), "probes", "c16", "*.graphqls"))
@@ -247,6 +313,20 @@ func main() {
 		ownAST, gerr = gqlparser.LoadSchema(srcs...)
 		if gerr != nil {
 			vlib.Infra("probe schema does not load: %v", gerr)
+		}
+		// the same files with every carriage return removed: what a Go raw string literal keeps of them
+		var stripped []*ast.Source
+		for _, s := range srcs {
+			stripped = append(stripped, &ast.Source{Name: s.Name, Input: strings.ReplaceAll(s.Input, "\r", "")})
+		}
+		if noCR, err := gqlparser.LoadSchema(stripped...); err == nil {
+			at := map[string]string{}
+			c16lib.TextPositions(ownAST, func(pos, where, v string) { at[pos+"|"+where] = v })
+			c16lib.TextPositions(noCR, func(pos, where, v string) {
+				if w, ok := at[pos+"|"+where]; ok && w != v {
+					ownAltText[w] = v
+				}
+			})
 		}
 	}
 	viewCfg, gateCfg := "MC_Introspect.cfg", "MC_IntrospectGate.cfg"
@@ -371,6 +451,41 @@ func main() {
 	// ---- conformance of the gate ----
 	gateConformance(c, rep, gates, servers, ownAST, seed, replay)
 
+	// text classes: every position x class that occurred is a case class; the probe's own schema (the only one
+	// whose text travels through the generator) must carry the classes a byte-wise lossy delivery would change
+	if replay == nil {
+		var missing []string
+		for _, pos := range []string{"object-desc", "interface-desc", "union-desc", "enum-desc", "input_object-desc", "field-desc", "arg-desc",
+			"inputfield-desc", "enumvalue-desc", "directive-desc", "arg-default", "inputfield-default", "dirarg-default",
+			"field-reason", "arg-reason", "inputfield-reason", "enumvalue-reason", "dirarg-reason"} {
+			if rep.texts["own/"+pos+":space-at-line-end"]+rep.texts["own/"+pos+":tab-at-line-end"] == 0 {
+				missing = append(missing, pos+":blank-at-line-end")
+			}
+		}
+		for _, cl := range []string{"tab-at-line-end", "blank-only-line", "leading-space", "leading-tab", "backtick", "triple-quote", "non-bmp", "long-line", "space-at-text-end", "backslash"} {
+			n := 0
+			for k, v := range rep.texts {
+				if strings.HasPrefix(k, "own/") && strings.HasSuffix(k, ":"+cl) {
+					n += v
+				}
+			}
+			if n == 0 {
+				missing = append(missing, cl)
+			}
+		}
+		if len(ownAltText) == 0 {
+			missing = append(missing, "lone-CR line end")
+		}
+		if len(missing) > 0 {
+			vlib.Infra("vacuous: the probe's own schema lacks the text classes %v", missing)
+		}
+	}
+	tc := map[string]any{}
+	for k, v := range rep.texts {
+		c.Class("text:" + k)
+		tc[k] = v
+	}
+	c.Set("text_classes", tc)
 	tol := map[string]any{}
 	for k, v := range rep.toler {
 		tol[k] = v
@@ -381,16 +496,24 @@ func main() {
 		counts[k] = v
 	}
 	c.Set("mismatches_by_key", counts)
-	c.Set("rule", "schemas: every schema of the bounded space of spec/MC_Introspect.tla (union of exhaustive feature-group slices) plus seeded draws from the grammar IsSchema validated by TLC plus the probe's own schema; each is compared with TLC's View(S,TRUE) and View(S,FALSE) through the runtime introspection package and through generated servers (standard introspection query with includeDeprecated true / omitted / variable, and __type(name:) per type). Operations: every hiding operation of the gate machine x {extension installed, not installed} x {own schema, overridden schema, federated server}. A class is a distinct schema feature class (element kind x own deprecation x enclosing deprecation x description, type wrapping x kind, default-value kind x position, relation shape, directive shape) or a distinct hiding shape (position/via/argument mode/alias per root selection, extension on/off)")
+	c.Set("rule", "schemas: every schema of the bounded space of spec/MC_Introspect.tla (union of exhaustive feature-group slices, incl. SliceText = 11 text classes x 22 text positions) plus seeded draws from the grammar IsSchema validated by TLC plus the probe's own schema; each is compared with TLC's View(S,TRUE) and View(S,FALSE) through the runtime introspection package and through generated servers (standard introspection query with includeDeprecated true / omitted / variable, and __type(name:) per type); texts (descriptions, deprecation reasons, string defaults) are spelled quoted or as block strings (indented, column 0, one line, CRLF) and compared byte-exactly. The probe's own schema (incl. d.graphqls: blanks / tabs before line ends inside block strings at every text position, indentation, blank-only lines, backticks, escaped triple quotes, non-BMP, 6000-character line, CRLF and lone-CR line ends) is the text that travels through the generator: inlined as a raw string literal (v0, v1: schema files outside the executor directory) and embedded (e0: inside it); expected = the same files loaded by gqlparser. Operations: every hiding operation of the gate machine x {nothing registered, extension alone}, and every registration order of at most 3 (thorough 4) writers of DisableIntrospection (extension / user context mutator set|clear / AroundOperations guard set|clear|pass) x 21 hiding shapes, each run on a fresh server through executor.Executor and through handler.Server + transport.POST, on {own schema, overridden schema, federated server}; guards decide per request from a request header. A class is a distinct schema feature class (element kind x own deprecation x enclosing deprecation x description, type wrapping x kind, default-value kind x position, relation shape, directive shape), a text position x text class, or a distinct hiding shape x registration order")
 	c.Set("exhaustive", false)
 	c.Set("variants", len(variants))
 	c.Assume("gqlparser (validator.LoadSchema, parser) loads SDL faithfully; the check verifies on every schema that the loaded AST abstracts back to the schema that was rendered")
 	c.Assume("TLC evaluates View/Rebuild of spec/Introspect.tla correctly")
+	c.Assume("gqlparser's reading of a schema FILE (block-string value, line terminators) is the reference for what the schema says; the generated servers' answers are compared with it byte for byte")
+	c.Assume("writes to DisableIntrospection after next(ctx) returned, and by field / response interceptors, are not modelled")
 	c.Assume("null vs [] for lists that do not apply to a kind, and null vs \"No longer supported\" for @deprecated without reason, are not distinguished (counted in tolerated_deviations)")
 	c.Assume("the order of types, fields, arguments, values and directives in the answer is left free")
 	fmt.Fprintln(os.Stderr, "c16: done")
 	c.Finish()
 }
+
+// ownAltText: text of the probe's own schema -> the text the element has when the source files are read
+// without their carriage returns (non-empty only for elements whose value depends on a lone CR)
+var ownAltText map[string]string
+
+const keyInlinedCR = "inlined-schema-source-loses-lone-carriage-return"
 
 type scenario struct {
 	Kind     string            `json:"kind"` // view | gate
@@ -402,6 +525,7 @@ type scenario struct {
 	Vars     map[string]any    `json:"vars,omitempty"`
 	Server   string            `json:"server,omitempty"`
 	Gate     *c16lib.GateCase  `json:"gate,omitempty"`
+	HTTP     bool              `json:"http,omitempty"`
 	Note     map[string]string `json:"note,omitempty"`
 }
 
@@ -507,6 +631,11 @@ func oneView(c *vlib.Check, rep *reporter, idx int, cs *c16lib.Case, plain []*se
 			vlib.Infra("rendered schema does not load (renderer or grammar problem): %v\n%s", err, sdl)
 		}
 	}
+	if cs.Own {
+		rep.noteTexts("own/", sch)
+	} else {
+		rep.noteTexts("", sch)
+	}
 	// the independent observation point: what gqlparser loaded is the schema that was rendered
 	if d := c16lib.Diff(c16lib.FromAST(sch), conc.Concretise(&cs.S)); d != "" {
 		vlib.Infra("gqlparser's AST differs from the rendered abstract schema (%s): %s\n%s", cs.Origin, d, sdl)
@@ -521,6 +650,9 @@ func oneView(c *vlib.Check, rep *reporter, idx int, cs *c16lib.Case, plain []*se
 			exp = &cs.Cur
 		}
 		cm := &c16lib.Cmp{S: &cs.S, C: conc, Inc: inc, ArgFilter: argF, InpFilter: inpF}
+		if cs.Own && strings.HasPrefix(path, "generated ") && !strings.HasPrefix(path, "generated e") { // inlined delivery only
+			cm.AltText, cm.AltKey = ownAltText, keyInlinedCR
+		}
 		cm.View(exp, obs)
 		n++
 		rep.tolerate(cm.Tolerated)
@@ -534,6 +666,9 @@ func oneView(c *vlib.Check, rep *reporter, idx int, cs *c16lib.Case, plain []*se
 			exp = &cs.Cur
 		}
 		cm := &c16lib.Cmp{S: &cs.S, C: conc, Inc: inc, ArgFilter: argF, InpFilter: inpF}
+		if cs.Own && strings.HasPrefix(path, "generated ") && !strings.HasPrefix(path, "generated e") { // inlined delivery only
+			cm.AltText, cm.AltKey = ownAltText, keyInlinedCR
+		}
 		for _, et := range exp.Types {
 			ot, ok := get(et.Name)
 			if !ok || ot == nil {
@@ -702,13 +837,18 @@ func gateConformance(c *vlib.Check, rep *reporter, gates []*c16lib.GateCase, ser
 			var batch []*c16lib.GateCase
 			var qs []string
 			var vs []map[string]any
+			var https []bool
 			flush := func() {
 				if len(batch) == 0 {
 					return
 				}
 				cmd := ur.C16Cmd{ID: "gate", SDL: t.sdl}
 				for i := range batch {
-					cmd.Runs = append(cmd.Runs, ur.C16Run{Query: qs[i], Vars: vs[i], Ext: batch[i].Op.Ext == "t"})
+					run := ur.C16Run{Query: qs[i], Vars: vs[i], Ext: batch[i].Op.Ext == "t", HTTP: https[i], HasChain: true, Chain: []ur.C16Item{}}
+					for _, it := range batch[i].Op.Chain {
+						run.Chain = append(run.Chain, ur.C16Item{K: it.K, W: it.W})
+					}
+					cmd.Runs = append(cmd.Runs, run)
 				}
 				res, err := call(t.proc, cmd)
 				if err != nil {
@@ -716,23 +856,27 @@ func gateConformance(c *vlib.Check, rep *reporter, gates []*c16lib.GateCase, ser
 				}
 				for i, g := range batch {
 					o := res.Outs[i]
-					sc := scenario{Kind: "gate", Gate: g, Server: t.label, Query: qs[i], Vars: vs[i]}
+					label := t.label + "/executor"
+					if https[i] {
+						label = t.label + "/handler+POST"
+					}
+					sc := scenario{Kind: "gate", Gate: g, Server: t.label, Query: qs[i], Vars: vs[i], HTTP: https[i]}
 					if o.Err != "" {
-						vlib.Infra("gate probe %s: %s", t.label, o.Err)
+						vlib.Infra("gate probe %s: %s", label, o.Err)
 					}
 					r, err := c16lib.DecodeResponse(o.Raw)
 					if err != nil {
-						rep.report(c16lib.Mismatch{Key: "gate-response-not-json", Where: g.Op.Class(), Detail: trunc(o.Raw, 300)}, t.label, sc)
+						rep.report(c16lib.Mismatch{Key: "gate-response-not-json", Where: g.Op.Class(), Detail: trunc(o.Raw, 300)}, label, sc)
 						continue
 					}
 					for _, m := range c16lib.CheckGate(g, r, o.GateErrs, qs[i], vs[i], t.secrets, t.substr) {
-						rep.report(m, t.label, sc)
+						rep.report(m, label, sc)
 					}
 				}
 				mu.Lock()
 				evals += int64(len(batch))
 				mu.Unlock()
-				batch, qs, vs = nil, nil, nil
+				batch, qs, vs, https = nil, nil, nil, nil
 			}
 			for gi, g := range gates {
 				if replay != nil && replay.Server != "" && replay.Server != t.label {
@@ -745,16 +889,39 @@ func gateConformance(c *vlib.Check, rep *reporter, gates []*c16lib.GateCase, ser
 					continue
 				}
 				query, vars := g.Op.Render(t.known, int(seed)+gi+ti)
-				batch, qs, vs = append(batch, g), append(qs, query), append(vs, vars)
-				mu.Lock()
-				counts[t.label]++
-				if g.Op.Has("_service") {
-					counts["_service"]++
+				// the registration orders of rounds 1-2 (nothing / the extension alone) alternate between the
+				// executor and handler.Server + transport.POST; every other order runs through both
+				legacy := len(g.Op.Chain) == 0 || (len(g.Op.Chain) == 1 && g.Op.Chain[0].K == "intro")
+				modes := []bool{false, true}
+				if legacy && replay == nil {
+					modes = []bool{(gi+ti+int(seed))%2 == 0}
 				}
-				if g.Op.Ext == "f" {
-					counts["disabled"]++
+				for _, h := range modes {
+					batch, qs, vs, https = append(batch, g), append(qs, query), append(vs, vars), append(https, h)
+					mu.Lock()
+					counts[t.label]++
+					if g.Op.Has("_service") {
+						counts["_service"]++
+					}
+					if g.Disabled() {
+						counts["disabled"]++
+					}
+					if h {
+						counts["handler+POST"]++
+					} else {
+						counts["executor"]++
+					}
+					if !legacy {
+						counts["registration-orders"]++
+						if g.Disabled() && g.Op.Ext == "t" {
+							counts["disabled-although-extension-installed"]++
+						}
+						if !g.Disabled() && g.Op.Ext == "f" {
+							counts["enabled-without-extension"]++
+						}
+					}
+					mu.Unlock()
 				}
-				mu.Unlock()
 				if len(batch) >= 64 {
 					flush()
 				}
@@ -773,10 +940,24 @@ func gateConformance(c *vlib.Check, rep *reporter, gates []*c16lib.GateCase, ser
 	}
 	c.Set("gate_runs", cm)
 	c.Set("gate_operations", len(gates))
-	if replay == nil && (counts["_service"] == 0 || counts["disabled"] == 0) {
+	chains := map[string]bool{}
+	for _, g := range gates {
+		chains[g.Op.ChainSig()] = true
+	}
+	c.Set("gate_registration_orders", len(chains))
+	if replay == nil && (counts["_service"] == 0 || counts["disabled"] == 0 || counts["disabled-although-extension-installed"] == 0 ||
+		counts["enabled-without-extension"] == 0 || counts["handler+POST"] == 0 || counts["executor"] == 0) {
 		vlib.Infra("vacuous gate run: %v", counts)
 	}
 	g := gates[(int(seed)*31)%len(gates)]
 	q, v := g.Op.Render("Zq7Widget", int(seed))
 	c.Sample(map[string]any{"gate_op": g.Op, "expect": g.Res, "query": q, "vars": v})
+	for i := range gates { // one case where a guard registered before the extension disables introspection for this request
+		g := gates[(i+int(seed)*131)%len(gates)]
+		if len(g.Op.Chain) >= 2 && g.Op.Chain[0].K == "mw" && g.Op.Chain[0].W == "t" && g.Op.Ext == "t" && g.Disabled() {
+			q, v := g.Op.Render("Zq7Widget", int(seed))
+			c.Sample(map[string]any{"gate_op": g.Op, "registration_order": g.Op.ChainSig(), "disable_introspection_at_execution": g.Dis, "expect": g.Res, "query": q, "vars": v})
+			break
+		}
+	}
 }
